@@ -251,19 +251,51 @@ const SC_PLAIN_LEN: usize = 56;
 
 // ------------------------------------------------------------------ points
 
-const PBYTES: usize = core::mem::size_of::<Point>();
+/// number of 64-bit words that hold the NE encoding bytes (little-endian packing) at the
+/// beginning of the real `Point` structure (whose fields are all arrays of u64 limbs)
+const PK: usize = (NE + 7) / 8;
+const _PT_FITS: () = assert!(core::mem::size_of::<Point>() >= 8 * PK && core::mem::align_of::<Point>() == 8);
+
+fn pt_limbs(b: &[u8; NE]) -> [u64; PK] {
+    let mut w = [0u64; PK];
+    for i in 0..NE {
+        w[i >> 3] |= (b[i] as u64) << (8 * (i & 7));
+    }
+    w
+}
+
+fn pt_unlimbs(w: &[u64; PK]) -> [u8; NE] {
+    let mut b = [0u8; NE];
+    for i in 0..NE {
+        b[i] = (w[i >> 3] >> (8 * (i & 7))) as u8;
+    }
+    b
+}
+
+fn pt_put(p: &mut Point, w: &[u64; PK]) {
+    let base = p as *mut Point as *mut u64;
+    for i in 0..PK {
+        unsafe { *base.add(i) = w[i]; }
+    }
+}
+
+fn pt_get(p: &Point) -> [u64; PK] {
+    let base = p as *const Point as *const u64;
+    let mut w = [0u64; PK];
+    for i in 0..PK {
+        w[i] = unsafe { *base.add(i) };
+    }
+    w
+}
 
 fn pt_wrap(b: &[u8; NE]) -> Point {
-    let mut raw = [0u8; PBYTES];
-    raw[..NE].copy_from_slice(b);
-    unsafe { core::mem::transmute::<[u8; PBYTES], Point>(raw) }
+    let mut p = Point::NEUTRAL;
+    pt_put(&mut p, &pt_limbs(b));
+    p
 }
 
 fn pt_bytes(p: &Point) -> [u8; NE] {
-    let raw = unsafe { core::mem::transmute::<Point, [u8; PBYTES]>(*p) };
-    let mut b = [0u8; NE];
-    b.copy_from_slice(&raw[..NE]);
-    b
+    pt_unlimbs(&pt_get(p))
 }
 
 /// the fixed set of "canonical point encodings" of the model
@@ -303,10 +335,10 @@ fn st_pt_encode(p: Point) -> [u8; NE] {
 }
 
 fn st_pt_equals(p: Point, q: Point) -> u32 {
-    let a = pt_bytes(&p);
-    let b = pt_bytes(&q);
-    let mut d = 0u8;
-    for i in 0..NE {
+    let a = pt_get(&p);
+    let b = pt_get(&q);
+    let mut d = 0u64;
+    for i in 0..PK {
         d |= a[i] ^ b[i];
     }
     if d == 0 { 0xFFFFFFFF } else { 0 }
